@@ -6,35 +6,46 @@ import (
 	"github.com/bufbuild/bufverif/internal/bufx"
 )
 
-// Dup phase ("each path once"): two modules of one workspace both contain x/f0.proto (with different texts). For every
-// selection, either there is no image, or the image has the path once and descriptor, owner and external path of that
-// file all belong to ONE of the two candidates (the ordinary oracle must pass for one of the two single-owner views).
+// Dup phase ("each path once"): two modules of one workspace both contain the same path (with different texts): an
+// ordinary path (x/f0.proto) or the path of a well-known type (google/protobuf/any.proto, for which a built-in copy
+// exists as a third candidate that must NOT be picked: the workspace supplies the file). For every selection, either
+// there is no image, or the image has the path once and descriptor, owner and external path of that file all belong to
+// ONE of the two candidates (the ordinary oracle must pass for one of the two single-owner views).
 
 func (rn *runner) runDupPhase() {
 	r := rn.r
 	type variant struct {
 		name     string
-		importer bool // a third file imports x/f0.proto
+		importer bool // a third file imports the duplicated path
+		wkt      bool // the duplicated path is google/protobuf/any.proto
 	}
-	variants := []variant{{"two-copies", false}, {"two-copies-imported", true}}
+	variants := []variant{{"two-copies", false, false}, {"two-copies-imported", true, false},
+		{"wkt-two-copies", false, true}, {"wkt-two-copies-imported", true, true}}
 	r.ParallelFor(len(variants), 0, func(vi int) {
 		v := variants[vi]
 		cnt := counters{}
 		defer rn.merge(cnt)
 		textA := "syntax = \"proto3\";\npackage pkg.f0;\n// copy of module ma\nmessage M0 { int32 a = 1; }\n"
 		textB := "syntax = \"proto3\";\npackage pkg.f0;\n// copy of module mb\nmessage M0 { string b = 2; }\n"
+		dupPath, importerText := "x/f0.proto", "syntax = \"proto3\";\npackage pkg.f1;\nimport \"x/f0.proto\";\nmessage M1 { pkg.f0.M0 r = 1; }\n"
+		if v.wkt {
+			dupPath = wktAny
+			textA = "syntax = \"proto3\";\npackage google.protobuf;\n// copy of module ma\nmessage Any { string type_url = 1; bytes value = 2; int32 a = 3; }\n"
+			textB = "syntax = \"proto3\";\npackage google.protobuf;\n// copy of module mb\nmessage Any { string type_url = 1; bytes value = 2; string b = 4; }\n"
+			importerText = "syntax = \"proto3\";\npackage pkg.f1;\nimport \"" + wktAny + "\";\nmessage M1 { google.protobuf.Any r = 1; }\n"
+		}
 		mk := func(keep int) *World {
 			w := &World{ModDirs: []string{"ma", "mb"}, ModNames: []string{modName("ma"), modName("mb")},
 				BufYAML: "version: v2\nmodules:\n  - path: ma\n    name: " + modName("ma") + "\n  - path: mb\n    name: " + modName("mb") + "\n"}
 			if keep != 1 {
-				w.Files = append(w.Files, File{Path: "x/f0.proto", Module: 0, Ext: "ma/x/f0.proto", Text: textA})
+				w.Files = append(w.Files, File{Path: dupPath, Module: 0, Ext: "ma/" + dupPath, Text: textA})
 			}
 			if keep != 0 {
-				w.Files = append(w.Files, File{Path: "x/f0.proto", Module: 1, Ext: "mb/x/f0.proto", Text: textB})
+				w.Files = append(w.Files, File{Path: dupPath, Module: 1, Ext: "mb/" + dupPath, Text: textB})
 			}
 			if v.importer {
 				w.Files = append(w.Files, File{Path: "x/y/f1.proto", Module: 1, Ext: "mb/x/y/f1.proto",
-					Text: "syntax = \"proto3\";\npackage pkg.f1;\nimport \"x/f0.proto\";\nmessage M1 { pkg.f0.M0 r = 1; }\n"})
+					Text: importerText})
 			}
 			return w
 		}
@@ -60,7 +71,7 @@ func (rn *runner) runDupPhase() {
 			cnt.add("dup_outcome_image", 1)
 			hasDup := false
 			for _, o := range obs {
-				if o.Path == "x/f0.proto" {
+				if o.Path == dupPath {
 					hasDup = true
 				}
 			}
@@ -92,7 +103,11 @@ func (rn *runner) runDupPhase() {
 				if len(firstVs) > 0 {
 					what = firstVs[0].what
 				}
-				r.Violate("api/dup/inconsistent-image", fmt.Sprintf("%s %s: x/f0.proto exists in modules ma and mb; an image was built that matches neither copy consistently: %s", v.name, sel, what),
+				sig := "api/dup/inconsistent-image"
+				if v.wkt {
+					sig += "/workspace-wkt"
+				}
+				r.Violate(sig, fmt.Sprintf("%s %s: %s exists in modules ma and mb; an image was built that matches neither copy consistently: %s", v.name, sel, dupPath, what),
 					Case{Phase: "dup", Selection: &sel, Files: files, Note: v.name})
 			}
 			r.Distinct("dup|" + v.name + "|" + sel.String())
